@@ -62,14 +62,18 @@ func main() {
 	r := ev.Start("C36", "model_checking")
 	vals := polyenv.Keys(5)
 	polyenv.Setup(0, vals)
-	dir := polyenv.TmpDir("c36chain")
-	defer os.RemoveAll(dir)
-	ch, err := polyenv.OpenChain(dir, vals)
-	if err != nil {
-		r.HarnessError("open chain: %v", err)
+	var ch *polyenv.Chain // the real ledger of the history being explored (one fresh chain per history)
+	openChain := func() func() {
+		dir := polyenv.TmpDir("c36chain")
+		c, err := polyenv.OpenChain(dir, vals)
+		if err != nil {
+			os.RemoveAll(dir)
+			r.HarnessError("open chain: %v", err)
+		}
+		ch = c
+		ledger.DefLedger = ledger.VerifNewLedger(ch.L)
+		return func() { c.Close(); os.RemoveAll(dir) }
 	}
-	defer ch.Close()
-	ledger.DefLedger = ledger.VerifNewLedger(ch.L)
 
 	// ------------------------------------------------------------------ accounts and addresses
 	acct := map[string]*polyenv.Acct{"r1": polyenv.Key(40), "r2": polyenv.Key(41), "r3": polyenv.Key(42), "out": polyenv.Key(50), "c1": polyenv.Key(20)}
@@ -77,9 +81,10 @@ func main() {
 		acct[fmt.Sprintf("v%d", i)] = v
 	}
 	group := map[string][]*polyenv.Acct{
-		"op5":   vals,                                                        // operator of the genesis epoch
-		"op6":   append(append([]*polyenv.Acct{}, vals...), acct["c1"]),      // after c1 became a consensus node
+		"op5":   vals,                                                       // operator of the genesis epoch
+		"op6":   append(append([]*polyenv.Acct{}, vals...), acct["c1"]),     // after c1 became a consensus node
 		"opNew": append(append([]*polyenv.Acct{}, vals[:4]...), acct["c1"]), // after v4 quit
+		"op4":   vals[:4],                                                   // history B: after v4 was blacklisted
 	}
 	addr := map[string]common.Address{}
 	for n, a := range acct {
@@ -122,7 +127,7 @@ func main() {
 			}
 		}
 	}
-	for _, a := range []string{"r3", "c1", "v4", "op6", "opNew"} {
+	for _, a := range []string{"r3", "c1", "v4", "op6", "opNew", "op4"} {
 		add(a, true, []string{a}, entry(a))
 	}
 	// forged entries: the listed key is a relayer's / validator's / the operator's, the signature is not theirs
@@ -153,42 +158,72 @@ func main() {
 	}
 	V := []string{"v0", "v1", "v2", "v3", "v4"}
 	var hist []step
-	cur := struct{ rel, pool, oper []string }{nil, V, V}
+	var cur struct{ rel, pool, oper []string }
 	push := func(name string, tx func() *types.Transaction) {
 		hist = append(hist, step{name: name, tx: tx, relayers: append([]string{}, cur.rel...), pool: append([]string{}, cur.pool...), oper: append([]string{}, cur.oper...)})
 	}
-	push("genesis", nil)
 	quorum := func(method string, id uint64, approvers []string, then func()) {
 		for i, v := range approvers {
 			if i == len(approvers)-1 {
-				then() // N=5 consensus nodes: quorum is 4 approvals
+				then() // applied by the last approval of the list
 			}
 			push(fmt.Sprintf("%s(%d) by %s", method, id, v), call(gov.RM, method, gov.ApproveRelayer(id, addr[v]), v))
 		}
 	}
-	push("registerRelayer([r1]) by r1 -> apply 0", call(gov.RM, relayer_manager.REGISTER_RELAYER, gov.RelayerList(addrs("r1"), addr["r1"]), "r1"))
-	quorum(relayer_manager.APPROVE_REGISTER_RELAYER, 0, V[:4], func() { cur.rel = []string{"r1"} })
-	push("removeRelayer([r1]) by out -> remove 0", call(gov.RM, relayer_manager.REMOVE_RELAYER, gov.RelayerList(addrs("r1"), addr["out"]), "out"))
-	quorum(relayer_manager.APPROVE_REMOVE_RELAYER, 0, V[:4], func() { cur.rel = nil })
-	push("registerRelayer([r1,r3]) by r3 -> apply 1", call(gov.RM, relayer_manager.REGISTER_RELAYER, gov.RelayerList(addrs("r1", "r3"), addr["r3"]), "r3"))
-	quorum(relayer_manager.APPROVE_REGISTER_RELAYER, 1, V[1:], func() { cur.rel = []string{"r1", "r3"} })
-	push("removeRelayer([r3]) by v0 -> remove 1", call(gov.RM, relayer_manager.REMOVE_RELAYER, gov.RelayerList(addrs("r3"), addr["v0"]), "v0"))
-	quorum(relayer_manager.APPROVE_REMOVE_RELAYER, 1, V[:4], func() { cur.rel = []string{"r1"} })
-	// consensus set: c1 joins (candidate, then consensus), v4 quits
-	push("registerCandidate(c1)", call(gov.NM, node_manager.REGISTER_CANDIDATE, gov.RegisterPeer(acct["c1"].PubHex, addr["c1"]), "c1"))
-	for i, v := range V[:4] {
-		if i == 3 {
-			cur.pool = append(append([]string{}, V...), "c1") // candidate status: in the peer pool, not yet an operator key
-		}
-		push("approveCandidate(c1) by "+v, call(gov.NM, node_manager.APPROVE_CANDIDATE, gov.Peer(acct["c1"].PubHex, addr[v]), v))
+	start := func() {
+		hist = nil
+		cur.rel, cur.pool, cur.oper = nil, V, V
+		push("genesis", nil)
 	}
-	cur.oper = append(append([]string{}, V...), "c1")
-	push("commitDpos by op5", call(gov.NM, node_manager.COMMIT_DPOS, nil, "op5"))
-	cur.oper = []string{"v0", "v1", "v2", "v3", "c1"} // v4 quitting: still in the pool of this view
-	push("quitNode(v4)", call(gov.NM, node_manager.QUIT_NODE, gov.Peer(acct["v4"].PubHex, addr["v4"]), "v4"))
-	cur.pool = []string{"v0", "v1", "v2", "v3", "c1"}
-	push("commitDpos by opNew", call(gov.NM, node_manager.COMMIT_DPOS, nil, "opNew"))
-	push("empty block", func() *types.Transaction { return nil })
+	// History A: register+approve r1, remove+approve r1, re-add (with r3), remove r3 only; then the consensus set changes:
+	// c1 joins (candidate, then consensus node), v4 quits. N=5 consensus nodes: quorum is 4 approvals.
+	historyA := func() []step {
+		start()
+		push("registerRelayer([r1]) by r1 -> apply 0", call(gov.RM, relayer_manager.REGISTER_RELAYER, gov.RelayerList(addrs("r1"), addr["r1"]), "r1"))
+		quorum(relayer_manager.APPROVE_REGISTER_RELAYER, 0, V[:4], func() { cur.rel = []string{"r1"} })
+		push("removeRelayer([r1]) by out -> remove 0", call(gov.RM, relayer_manager.REMOVE_RELAYER, gov.RelayerList(addrs("r1"), addr["out"]), "out"))
+		quorum(relayer_manager.APPROVE_REMOVE_RELAYER, 0, V[:4], func() { cur.rel = nil })
+		push("registerRelayer([r1,r3]) by r3 -> apply 1", call(gov.RM, relayer_manager.REGISTER_RELAYER, gov.RelayerList(addrs("r1", "r3"), addr["r3"]), "r3"))
+		quorum(relayer_manager.APPROVE_REGISTER_RELAYER, 1, V[1:], func() { cur.rel = []string{"r1", "r3"} })
+		push("removeRelayer([r3]) by v0 -> remove 1", call(gov.RM, relayer_manager.REMOVE_RELAYER, gov.RelayerList(addrs("r3"), addr["v0"]), "v0"))
+		quorum(relayer_manager.APPROVE_REMOVE_RELAYER, 1, V[:4], func() { cur.rel = []string{"r1"} })
+		push("registerCandidate(c1)", call(gov.NM, node_manager.REGISTER_CANDIDATE, gov.RegisterPeer(acct["c1"].PubHex, addr["c1"]), "c1"))
+		for i, v := range V[:4] {
+			if i == 3 {
+				cur.pool = append(append([]string{}, V...), "c1") // candidate status: in the peer pool, not yet an operator key
+			}
+			push("approveCandidate(c1) by "+v, call(gov.NM, node_manager.APPROVE_CANDIDATE, gov.Peer(acct["c1"].PubHex, addr[v]), v))
+		}
+		cur.oper = append(append([]string{}, V...), "c1")
+		push("commitDpos by op5", call(gov.NM, node_manager.COMMIT_DPOS, nil, "op5"))
+		cur.oper = []string{"v0", "v1", "v2", "v3", "c1"} // v4 quitting: still in the pool of this view
+		push("quitNode(v4)", call(gov.NM, node_manager.QUIT_NODE, gov.Peer(acct["v4"].PubHex, addr["v4"]), "v4"))
+		cur.pool = []string{"v0", "v1", "v2", "v3", "c1"}
+		push("commitDpos by opNew", call(gov.NM, node_manager.COMMIT_DPOS, nil, "opNew"))
+		push("empty block", func() *types.Transaction { return nil })
+		return hist
+	}
+	// History B: a removal request approved while the registration is still short of quorum, the registration completing
+	// afterwards, both relayers removed by one request; then v4 is blacklisted (blackNode of a consensus node switches
+	// the view at once).
+	historyB := func() []step {
+		start()
+		push("registerRelayer([r1,r3]) by out -> apply 0", call(gov.RM, relayer_manager.REGISTER_RELAYER, gov.RelayerList(addrs("r1", "r3"), addr["out"]), "out"))
+		quorum(relayer_manager.APPROVE_REGISTER_RELAYER, 0, []string{"v4", "v3", "v2"}, func() {})
+		push("removeRelayer([r1]) by r2 -> remove 0", call(gov.RM, relayer_manager.REMOVE_RELAYER, gov.RelayerList(addrs("r1"), addr["r2"]), "r2"))
+		quorum(relayer_manager.APPROVE_REMOVE_RELAYER, 0, V[:4], func() {})
+		quorum(relayer_manager.APPROVE_REGISTER_RELAYER, 0, []string{"v1"}, func() { cur.rel = []string{"r1", "r3"} })
+		push("removeRelayer([r1,r3]) by v0 -> remove 1", call(gov.RM, relayer_manager.REMOVE_RELAYER, gov.RelayerList(addrs("r1", "r3"), addr["v0"]), "v0"))
+		quorum(relayer_manager.APPROVE_REMOVE_RELAYER, 1, V[1:], func() { cur.rel = nil })
+		for i, v := range V[:4] {
+			if i == 3 {
+				cur.pool, cur.oper = V[:4], V[:4]
+			}
+			push("blackNode([v4]) by "+v, call(gov.NM, node_manager.BLACK_NODE, gov.PeerList([]string{acct["v4"].PubHex}, addr[v]), v))
+		}
+		push("empty block", func() *types.Transaction { return nil })
+		return hist
+	}
 
 	// ------------------------------------------------------------------ ledger-side cross-check of the expectations
 	readRegistry := func() []string {
@@ -269,207 +304,221 @@ func main() {
 		}
 		return l
 	}
-	states, transitions := 0, 0
-	reach := map[cacheState]bool{"": true} // cache contents reachable at the current history point
+	states, transitions, points := 0, 0, 0
+	stricter := map[string]bool{} // admission stricter than the property needs (implication direction): reported, not alarmed
 	var perPoint []map[string]any
-	relayerAt := []map[string]bool{}
-	for i, st := range hist {
-		if r.Expired() {
-			r.Capped(fmt.Sprintf("history cut at point %d of %d", i, len(hist)))
-			break
-		}
-		if st.tx != nil {
-			var txs []*types.Transaction
-			if t := st.tx(); t != nil {
-				txs = append(txs, t)
+	for _, hb := range []struct {
+		name  string
+		build func() []step
+	}{{"A", historyA}, {"B", historyB}} {
+		hist := hb.build()
+		closeChain := openChain()
+		points += len(hist)
+		reach := map[cacheState]bool{"": true} // cache contents reachable at the current history point
+		relayerAt := []map[string]bool{}
+		for i, st := range hist {
+			if r.Expired() {
+				r.Capped(fmt.Sprintf("history cut at point %d of %d", i, len(hist)))
+				break
 			}
-			if _, err := ch.Commit(ch.NextBlock(txs, nil)); err != nil {
-				r.HarnessError("commit of history step %d (%s): %v", i, st.name, err)
+			if st.tx != nil {
+				var txs []*types.Transaction
+				if t := st.tx(); t != nil {
+					txs = append(txs, t)
+				}
+				if _, err := ch.Commit(ch.NextBlock(txs, nil)); err != nil {
+					r.HarnessError("commit of history step %d (%s): %v", i, st.name, err)
+				}
+				transitions += len(reach) // the "next block" event from every cache state
 			}
-			transitions += len(reach) // the "next block" event from every cache state
-		}
-		pool, oper := readPool()
-		if reg := readRegistry(); !eqs(reg, st.relayers) || !eqs(pool, st.pool) || !eqs(oper, st.oper) {
-			r.HarnessError("history step %d (%s): ledger has relayers=%v pool=%v consensus=%v, driver expected %v %v %v", i, st.name, reg, pool, oper, st.relayers, st.pool, st.oper)
-		}
-		// the reference sets of this point
-		registered := map[string]bool{}
-		for _, n := range st.relayers {
-			registered[n] = true
-		}
-		relayerAt = append(relayerAt, registered)
-		permitted := map[string]bool{}
-		for _, n := range st.pool {
-			permitted[n] = true
-		}
-		for g, members := range group { // operator multisig of the pool / of its consensus-status members
-			var mn []string
-			for _, m := range members {
-				mn = append(mn, nameOf[m.Addr])
+			pool, oper := readPool()
+			if reg := readRegistry(); !eqs(reg, st.relayers) || !eqs(pool, st.pool) || !eqs(oper, st.oper) {
+				r.HarnessError("history step %d (%s): ledger has relayers=%v pool=%v consensus=%v, driver expected %v %v %v", i, st.name, reg, pool, oper, st.relayers, st.pool, st.oper)
 			}
-			if eqs(mn, st.pool) || eqs(mn, st.oper) {
-				permitted[g] = true
+			// the reference sets of this point
+			registered := map[string]bool{}
+			for _, n := range st.relayers {
+				registered[n] = true
 			}
-		}
-		everRelayer := func(n string) bool {
-			for _, m := range relayerAt {
-				if m[n] {
-					return true
+			relayerAt = append(relayerAt, registered)
+			permitted := map[string]bool{}
+			for _, n := range st.pool {
+				permitted[n] = true
+			}
+			for g, members := range group { // operator multisig of the pool / of its consensus-status members
+				var mn []string
+				for _, m := range members {
+					mn = append(mn, nameOf[m.Addr])
+				}
+				if eqs(mn, st.pool) || eqs(mn, st.oper) {
+					permitted[g] = true
 				}
 			}
-			return false
-		}
-		pendingApproval := func(n string) bool { // requested, quorum not reached (only r1/r3 in this history)
-			return !registered[n] && (n == "r1" || n == "r3") && strings.Contains(st.name, "egisterRelayer")
-		}
-
-		work := sortedKeys(reach)
-		seen := map[cacheState]bool{}
-		for len(work) > 0 {
-			c := work[0]
-			work = work[1:]
-			if seen[c] {
-				continue
+			everRelayer := func(n string) bool {
+				for _, m := range relayerAt {
+					if m[n] {
+						return true
+					}
+				}
+				return false
 			}
-			seen[c] = true
-			states++
-			for _, clock := range []string{"fresh", "expired"} {
-				for _, p := range probes {
-					for _, snd := range []tc.SenderType{tc.NetSender, tc.HttpSender} {
-						stamp := time.Now().Unix() - 1 // "fresh": refreshed a second ago
-						if clock == "expired" {
-							stamp -= 120
-						}
-						proc.VerifC36SetCache(unkey(c), stamp)
-						s := proc.VerifC36NewServer()
-						var reply *tc.TxResult
-						rcv0 := s.VerifC36Stats()[tc.RcvStats-1]
-						if snd == tc.HttpSender {
-							chn := make(chan *tc.TxResult, 1)
-							s.VerifC36Submit(snd, p.tx, chn)
-							select {
-							case reply = <-chn:
-							default:
+			pendingApproval := func(n string) bool { // requested, quorum not reached (only r1/r3 in this history)
+				return !registered[n] && (n == "r1" || n == "r3") && strings.Contains(st.name, "egisterRelayer")
+			}
+
+			work := sortedKeys(reach)
+			seen := map[cacheState]bool{}
+			for len(work) > 0 {
+				c := work[0]
+				work = work[1:]
+				if seen[c] {
+					continue
+				}
+				seen[c] = true
+				states++
+				for _, clock := range []string{"fresh", "expired"} {
+					for _, p := range probes {
+						for _, snd := range []tc.SenderType{tc.NetSender, tc.HttpSender} {
+							stamp := time.Now().Unix() - 1 // "fresh": refreshed a second ago
+							if clock == "expired" {
+								stamp -= 120
 							}
-						} else {
-							s.VerifC36Submit(snd, p.tx, nil)
-						}
-						admitted := s.VerifC36Tracked(p.tx.Hash())
-						passedGate := s.VerifC36Stats()[tc.RcvStats-1] == rcv0+1
-						after, last := proc.VerifC36Cache()
-						c2 := keyOf(after)
-						refreshed := last != stamp
-						r.Eval()
-						transitions++
-						if admitted != passedGate {
-							r.HarnessError("admission observation inconsistent for %s: tracked=%v passed-gate=%v", p.name, admitted, passedGate)
-						}
-						if refreshed {
-							r.Class("cache:refreshed")
-						} else {
-							r.Class("cache:kept")
-						}
-						if refreshed != (clock == "expired" || c == "") {
-							r.HarnessError("clock seam: cache %q clock %s refreshed=%v", c, clock, refreshed)
-						}
-						if !seen[c2] {
-							work = append(work, c2)
-						}
-						// ---- oracle
-						why := ""
-						for _, sn := range p.signers {
-							if registered[sn] {
-								why = "relayer"
-							} else if permitted[sn] && why == "" {
-								if _, isGroup := group[sn]; isGroup {
-									why = "operator"
-								} else {
-									why = "consensus-node"
+							proc.VerifC36SetCache(unkey(c), stamp)
+							s := proc.VerifC36NewServer()
+							var reply *tc.TxResult
+							rcv0 := s.VerifC36Stats()[tc.RcvStats-1]
+							if snd == tc.HttpSender {
+								chn := make(chan *tc.TxResult, 1)
+								s.VerifC36Submit(snd, p.tx, chn)
+								select {
+								case reply = <-chn:
+								default:
 								}
-							}
-						}
-						sndName := map[tc.SenderType]string{tc.NetSender: "peer", tc.HttpSender: "rpc"}[snd]
-						detail := map[string]any{"history_point": i, "after_step": st.name, "history": names(hist[:i+1]), "tx_signers": p.signers, "probe": p.name,
-							"sender": sndName, "cache_before": c, "cache_after": c2, "clock": clock, "registered_now": st.relayers, "peer_pool_now": st.pool}
-						switch {
-						case admitted && why != "":
-							if p.validly {
-								r.Class("admitted:" + why)
 							} else {
-								// the gate looks at the listed keys only; the pool itself is protected by the stateless validator
-								r.Class("admitted:forged-claim(later refused by the stateless validator)")
+								s.VerifC36Submit(snd, p.tx, nil)
 							}
-							r.Case(fmt.Sprintf("admitted/%s/%s", p.name, why))
-						case admitted:
-							// no signer is a relayer now or a consensus address now
-							staleCons, removedRel := "", ""
+							admitted := s.VerifC36Tracked(p.tx.Hash())
+							passedGate := s.VerifC36Stats()[tc.RcvStats-1] == rcv0+1
+							after, last := proc.VerifC36Cache()
+							c2 := keyOf(after)
+							refreshed := last != stamp
+							r.Eval()
+							transitions++
+							if admitted != passedGate {
+								r.HarnessError("admission observation inconsistent for %s: tracked=%v passed-gate=%v", p.name, admitted, passedGate)
+							}
+							if refreshed {
+								r.Class("cache:refreshed")
+							} else {
+								r.Class("cache:kept")
+							}
+							if refreshed != (clock == "expired" || c == "") {
+								r.HarnessError("clock seam: cache %q clock %s refreshed=%v", c, clock, refreshed)
+							}
+							if !seen[c2] {
+								work = append(work, c2)
+							}
+							// ---- oracle
+							why := ""
 							for _, sn := range p.signers {
-								if strings.Contains(","+c2+",", ","+sn+",") && !permitted[sn] {
-									staleCons = sn
-								}
-								if everRelayer(sn) && !registered[sn] {
-									removedRel = sn
+								if registered[sn] {
+									why = "relayer"
+								} else if permitted[sn] && why == "" {
+									if _, isGroup := group[sn]; isGroup {
+										why = "operator"
+									} else {
+										why = "consensus-node"
+									}
 								}
 							}
+							sndName := map[tc.SenderType]string{tc.NetSender: "peer", tc.HttpSender: "rpc"}[snd]
+							detail := map[string]any{"history_name": hb.name, "history_point": i, "after_step": st.name, "history": names(hist[:i+1]), "tx_signers": p.signers, "probe": p.name,
+								"sender": sndName, "cache_before": c, "cache_after": c2, "clock": clock, "registered_now": st.relayers, "peer_pool_now": st.pool}
 							switch {
-							case removedRel != "":
-								r.Violation("removal:removed-relayer-still-admitted:"+clockKey(clock)+":"+sndName, detail)
-							case staleCons != "" && clock == "expired":
-								kind := "departed-consensus-node"
-								if _, g := group[staleCons]; g {
-									kind = "former-operator-multisig"
+							case admitted && why != "":
+								if p.validly {
+									r.Class("admitted:" + why)
+								} else {
+									// the gate looks at the listed keys only; the pool itself is protected by the stateless validator
+									r.Class("admitted:forged-claim(later refused by the stateless validator)")
 								}
-								r.Violation("admission:"+kind+"-admitted-after-cache-refresh", detail)
-								r.Class("admitted:stale-consensus-address-after-refresh")
-							case staleCons != "":
-								// the 60 s cache has not been refreshed yet: documented staleness, counted, not alarmed
-								r.Class("admitted:stale-consensus-address-within-60s-cache-window")
+								r.Case(fmt.Sprintf("admitted/%s/%s", p.name, why))
+							case admitted:
+								// no signer is a relayer now or a consensus address now
+								staleCons, removedRel := "", ""
+								for _, sn := range p.signers {
+									if strings.Contains(","+c2+",", ","+sn+",") && !permitted[sn] {
+										staleCons = sn
+									}
+									if everRelayer(sn) && !registered[sn] {
+										removedRel = sn
+									}
+								}
+								switch {
+								case staleCons != "" && clock == "expired":
+									kind := "departed-consensus-node"
+									if _, g := group[staleCons]; g {
+										kind = "former-operator-multisig"
+									}
+									r.Violation("admission:"+kind+"-admitted-after-cache-refresh", detail)
+									r.Class("admitted:stale-consensus-address-after-refresh")
+								case staleCons != "":
+									// explained by a cache entry, and the 60 s cache has not been refreshed yet: documented
+									// staleness, counted, not alarmed
+									r.Class("admitted:stale-consensus-address-within-60s-cache-window")
+								case removedRel != "":
+									// no cache entry explains it: the removed relayer itself was accepted
+									r.Violation("removal:removed-relayer-still-admitted:"+clockKey(clock)+":"+sndName, detail)
+								default:
+									r.Violation("admission:no-signer-registered-or-permitted:"+sndName, detail)
+								}
 							default:
-								r.Violation("admission:no-signer-registered-or-permitted:"+sndName, detail)
-							}
-						default:
-							switch {
-							case why != "" && len(p.signers) == 1 && p.validly && why == "relayer":
-								// the canonical case must be accepted
-								r.HarnessError("registered relayer %s refused at %s (cache %q, %s, %s)", p.name, st.name, c, clock, sndName)
-							case why != "":
-								r.Class("refused:although-permitted")
-								r.Case(fmt.Sprintf("refused-although-permitted/%s/%s/cold=%v", p.name, why, c == ""))
-							case len(p.signers) == 1 && everRelayer(p.signers[0]):
-								r.Class("refused:removed-relayer")
-							case len(p.signers) == 1 && pendingApproval(p.signers[0]):
-								r.Class("refused:relayer-with-pending-approval")
-							case p.name == "out":
-								r.Class("refused:outsider")
-							case p.name == "r2":
-								r.Class("refused:never-registered")
-							default:
-								r.Class("refused:other")
-							}
-							if snd == tc.HttpSender && reply != nil && reply.Err != errors.ErrNoError {
-								r.Class("refused:rpc-answered-with-error")
+								switch {
+								case why != "" && len(p.signers) == 1 && p.validly && why == "relayer":
+									// the canonical case must be accepted
+									r.HarnessError("registered relayer %s refused at %s (cache %q, %s, %s)", p.name, st.name, c, clock, sndName)
+								case why != "":
+									r.Class("refused:although-permitted")
+								stricter[fmt.Sprintf("history %s after %q: %s (%s) refused, cache %q clock %s", hb.name, st.name, p.name, why, c, clock)] = true
+									r.Case(fmt.Sprintf("refused-although-permitted/%s/%s/cold=%v", p.name, why, c == ""))
+								case len(p.signers) == 1 && everRelayer(p.signers[0]):
+									r.Class("refused:removed-relayer")
+								case len(p.signers) == 1 && pendingApproval(p.signers[0]):
+									r.Class("refused:relayer-with-pending-approval")
+								case p.name == "out":
+									r.Class("refused:outsider")
+								case p.name == "r2":
+									r.Class("refused:never-registered")
+								default:
+									r.Class("refused:other")
+								}
+								if snd == tc.HttpSender && reply != nil && reply.Err != errors.ErrNoError {
+									r.Class("refused:rpc-answered-with-error")
+								}
 							}
 						}
 					}
 				}
 			}
+			reach = seen
+			perPoint = append(perPoint, map[string]any{"history": hb.name, "point": i, "step": st.name, "registered": st.relayers, "peer_pool": st.pool, "cache_states": sortedKeys(seen)})
+			if i < 3 {
+				r.Sample(perPoint[len(perPoint)-1])
+			}
 		}
-		reach = seen
-		perPoint = append(perPoint, map[string]any{"point": i, "step": st.name, "registered": st.relayers, "peer_pool": st.pool, "cache_states": sortedKeys(seen)})
-		if i < 3 {
-			r.Sample(perPoint[len(perPoint)-1])
-		}
+		closeChain()
 	}
 	r.Note("history_points", perPoint)
+	r.Note("refused_although_permitted", sortedKeys(stricter))
 	r.Note("probes", probeNames(probes))
 	r.Assume("the registry / peer pool 'now' are the driver's declared expectations per governance step, cross-checked against the ledger after every block (governance correctness itself is C32/C33)",
 		"a stale consensus address admitted while the 60 s cache has not been refreshed is counted, not alarmed; admitted after a refresh it is a violation",
 		"admission looks at the listed public keys only (signatures are checked by the stateless validator before pooling): forged claims are counted")
 	r.Finish(map[string]any{
-		"rule": fmt.Sprintf("%d-point governance history on a real ledger (register+approve r1, remove+approve, re-add r1+r3, remove r3, candidate joins, commitDpos, validator quits, commitDpos) x every reachable content of the permitted-address cache x clock {fresh, expired} x %d signer sets (all subsets <=2 of {r1,r2,validator,operator,outsider} in both orders + r3,c1,v4,later operators + 4 forged) x sender {peer, rpc}; oracle admitted => some signer registered now or in the peer pool now", len(hist), len(probes)),
+		"rule":        fmt.Sprintf("2 governance histories (%d points) on real ledgers (A: register+approve r1, remove+approve, re-add r1+r3, remove r3, candidate joins, commitDpos, validator quits, commitDpos; B: removal approved before the registration reaches quorum, registration completes, both removed, validator blacklisted) x every reachable content of the permitted-address cache x clock {fresh, expired} x %d signer sets (all subsets <=2 of {r1,r2,validator,operator,outsider} in both orders + r3,c1,v4,later operators + 4 forged) x sender {peer, rpc}; oracle admitted => some signer registered now or in the peer pool now", points, len(probes)),
 		"states":      states,
 		"transitions": transitions, "traces_validated_against_impl": transitions,
-		"max_depth": len(hist),
+		"max_depth": points,
 	})
 }
 
